@@ -1194,7 +1194,12 @@ func main() {
 	_ = flag.String("replay", "", "unused: cases are regenerated from the seed")
 	shrinkFile := flag.String("shrink", "", "replay file whose failing sequence is to be cut down (no cases are generated)")
 	coqdir := flag.String("coq", "/verif/coq", "the compiled Coq tree (for -shrink)")
+	mode := flag.String("mode", "sequences", "sequences | tarentry (the tar-entry channel of pkg/tarfs)")
 	flag.Parse()
+	if *mode == "tarentry" {
+		tarentryMain(*out, *seed, *tier)
+		return
+	}
 	if *shrinkFile != "" {
 		if err := shrink(*shrinkFile, *coqdir); err != nil {
 			fmt.Fprintln(os.Stderr, "shrink:", err)
